@@ -25,8 +25,17 @@ Print Assumptions C05_selection.
    and never emits a separator line inside one, writing a stream and reading it back gives exactly the documents
    written, in order, none dropped and none invented. The two premises are what the per-run comparison establishes for
    the generated documents (and exactly what fails in the recorded C05 findings). *)
-Theorem C05_stream_roundtrip : forall toml (enc : value -> list string) (dec : list string -> res value),
-  (forall d, dec (enc d) = Ok d) -> (forall d, no_sep_line toml (enc d) = true) ->
-  forall docs, docs <> [] -> read_stream toml dec (write_stream enc docs) = Ok docs.
+Theorem C05_stream_roundtrip : forall toml (enc : value -> list string) (dec : list string -> res value) docs,
+  docs <> [] -> Forall (fun d => dec (enc d) = Ok d /\ no_sep_line toml (enc d) = true) docs ->
+  read_stream toml dec (write_stream enc docs) = Ok docs.
 Proof. exact stream_roundtrip. Qed.
 Print Assumptions C05_stream_roundtrip.
+
+(* the premises are met: a toy codec (a string document as its one line; anything else as the line "null") and the
+   stream ["a"; "b c"] *)
+Example C05_stream_example :
+  let enc := fun d => match d with VStr s => [s] | _ => ["null"%string] end in
+  let dec := fun ls => match ls with [s] => Ok (VStr s) | _ => Err EOther end in
+  Forall (fun d => dec (enc d) = Ok d /\ no_sep_line false (enc d) = true) [VStr "a"; VStr "b c"] /\
+  read_stream false dec (write_stream enc [VStr "a"; VStr "b c"]) = Ok [VStr "a"; VStr "b c"].
+Proof. split; [repeat constructor|reflexivity]. Qed.
